@@ -31,6 +31,7 @@ var funcMap = template.FuncMap{
 	"has_prefix":          strings.HasPrefix,
 	"sum":                 sum,
 	"string_switch":       asStringSwitch,
+	"lexer_string_switch": asLexerStringSwitch,
 	"quote":               strconv.Quote,
 	"join":                strings.Join,
 	"concat":              concat,
@@ -228,6 +229,19 @@ type stringSwitchCase struct {
 }
 
 func asStringSwitch(m map[string]int) stringSwitch {
+	return newStringSwitch(m, stringHash)
+}
+
+// asLexerStringSwitch builds a switch for a lexer that hashes the characters it consumes: runes,
+// or individual bytes when scanBytes is true.
+func asLexerStringSwitch(m map[string]int, scanBytes bool) stringSwitch {
+	if scanBytes {
+		return newStringSwitch(m, bytesHash)
+	}
+	return newStringSwitch(m, stringHash)
+}
+
+func newStringSwitch(m map[string]int, hashFunc func(string) uint32) stringSwitch {
 	size := uint32(8)
 	for int(size) < len(m) {
 		size *= 2
@@ -242,7 +256,7 @@ func asStringSwitch(m map[string]int) stringSwitch {
 	index := make(map[uint32]int)
 	ret := stringSwitch{Size: size}
 	for _, str := range list {
-		hash := stringHash(str)
+		hash := hashFunc(str)
 		rng := hash % size
 		i, ok := index[rng]
 		if !ok {
@@ -266,6 +280,15 @@ func stringHash(s string) uint32 {
 	var hash uint32
 	for _, r := range s {
 		hash = hash*uint32(31) + uint32(r)
+	}
+	return hash
+}
+
+// bytesHash is stringHash over the bytes of the utf-8 encoding of s.
+func bytesHash(s string) uint32 {
+	var hash uint32
+	for i := 0; i < len(s); i++ {
+		hash = hash*uint32(31) + uint32(s[i])
 	}
 	return hash
 }
